@@ -128,14 +128,14 @@ static void dump_qtree(const libfive::DCTree<2>* t, std::ostringstream& o) {
 #include "libfive/eval/evaluator.hpp"
 struct ExprOracleContext : public OracleContext {
     std::shared_ptr<Tape> tape;
-    bool isTerminal() override { return tape->isTerminal(); }
+    bool isTerminal() override { return tape ? tape->isTerminal() : false; }
 };
 class ExprOracle : public OracleStorage<> {
 public:
     explicit ExprOracle(const Tree& e) : ev(e) {}
     std::shared_ptr<Tape> tp() {
         auto c = dynamic_cast<ExprOracleContext*>(context.get());
-        return c ? c->tape : ev.getDeck()->tape;
+        return (c && c->tape) ? c->tape : ev.getDeck()->tape;
     }
     void evalInterval(Interval& out) override {
         last_base = tp();
@@ -207,7 +207,10 @@ public:
 class ExprOracleClause : public OracleClause {
 public:
     // every other clause created by this process hands out the minimal oracle (library defaults for batches / gradients)
-    ExprOracleClause(const Tree& e, int k) : e(e), k(k) { static int serial = 0; minimal = (serial++ % 2) == 1; }
+    // the wrapped expression is optimised ONCE: every oracle instance (one per worker) must lay out its private deck
+    // identically, because oracle contexts - which hold tapes of that deck - travel between workers with the tapes of
+    // the enclosing tree (Tree::optimized orders operands by address, so optimising per instance gives different decks)
+    ExprOracleClause(const Tree& e_, int k) : e(e_.optimized()), k(k) { static int serial = 0; minimal = (serial++ % 2) == 1; }
     std::unique_ptr<Oracle> getOracle() const override {
         if (minimal) return std::make_unique<ExprOracleMin>(e);
         return std::make_unique<ExprOracle>(e);
@@ -223,7 +226,10 @@ public:
     static Tree ball() {
         return sqrt(Tree::X() * Tree::X() + Tree::Y() * Tree::Y() + Tree::Z() * Tree::Z()) - Tree(1.0f);
     }
-    std::unique_ptr<Oracle> getOracle() const override { return std::make_unique<ExprOracle>(ball()); }
+    std::unique_ptr<Oracle> getOracle() const override {
+        static const Tree opt = ball().optimized();      // one deck layout for every instance (see ExprOracleClause)
+        return std::make_unique<ExprOracle>(opt);
+    }
     std::string name() const override { return "VerifBallClause"; }
     bool serialize(Serializer&) const { return true; }
     static std::unique_ptr<const OracleClause> deserialize(Deserializer&) {
